@@ -163,12 +163,13 @@ class KeywordTask:
         if nf == 0:
             raise RuntimeError("no normal path through %s" % self.name)
         for ob in obls:
+            ob.inputs_from_model = lambda m: concretise(m, d, k, value, instance, schema)      # noqa
             ob.check(self.timeout_ms)
             rec = {"name": ob.name if ob.name.startswith(self.name) else self.name + "::" + ob.name,
                    "kind": ob.kind, "status": ob.status, "solver": ob.solver, "time_s": round(ob.time_s, 3),
                    "note": ob.note}
-            if ob.status == "failed" and ob.model is not None:
-                rec["model"] = concretise(ob.model, d, k, value, instance, schema)
+            if ob.status == "failed" and getattr(ob, "model_inputs", None) is not None:
+                rec["model"] = ob.model_inputs
             if ob.status == "unknown":
                 rec["reason"] = ob.reason
             if ob.kind == "F" and len(res["obligations"]) < 400:
